@@ -79,7 +79,7 @@ def r_thermal(p, seed=0):
         cut = p.get("cutoff", 1e-4)
         if cut == "at-mode":  # a cutoff that coincides with a mode frequency: the mode is excluded ("> cutoff") in both languages
             cut = float(np.sort(ph.mesh.frequencies.ravel())[ph.mesh.frequencies.size // 3])
-        tp = ThermalProperties(ph.mesh, cutoff_frequency=cut)
+        tp = ThermalProperties(ph.mesh, cutoff_frequency=cut, classical=bool(p.get("classical", False)))
         tp.temperatures = np.array([0.0, 50.0, 300.0, 1000.0])
         tp.run(lang=lang)
         outs.append(np.array(tp.thermal_properties[1:]))
@@ -288,6 +288,8 @@ def matrix(tier):
     out.append(("thermal", {"xtal": "tri-P1-3", "S": S1, "mesh": [3, 2, 2], "meshsym": False, "cutoff": 1.0}))
     out.append(("thermal", {"xtal": "tri-P1-3", "S": S1, "mesh": [3, 2, 2], "meshsym": False, "cutoff": "at-mode"}))
     out.append(("thermal", {"xtal": "NaCl-prim-2", "S": S1, "mesh": [3, 3, 3], "cutoff": "at-mode"}))
+    out.append(("thermal", {"xtal": "NaCl-prim-2", "S": S1, "mesh": [3, 3, 3], "cutoff": 0.5, "classical": True}))
+    out.append(("thermal", {"xtal": "tri-P1-3", "S": S1, "mesh": [3, 2, 2], "meshsym": False, "cutoff": 1.0, "classical": True}))
     for xt in ("tri-P1-3", "hcp-2", "sc-1", "rhomb-prim-1", "mono-P21-2", "bct-conv-2"):
         out.append(("thm", {"xtal": xt, "mesh": [3, 2, 2]}))
     for mesh in ([3, 2, 2], [5, 3, 4], [3, 4, 2], [2, 3, 5], [4, 4, 4]):
